@@ -103,6 +103,7 @@ type frame struct {
 	result           value
 	panicking        bool
 	panic            interface{}
+	origin           byte    // race.go: 'l' library, 'h' harness (dependencies inherit)
 	phitemps         []value // temporaries for parallel phi assignment
 	phisDone         bool    // phis of fr.block were assigned by ifConvert
 }
@@ -178,6 +179,11 @@ func lookupMethod(i *interpreter, typ types.Type, meth *types.Func) *ssa.Functio
 // read the next instruction from.
 func visitInstr(fr *frame, instr ssa.Instruction) continuation {
 	X.step()
+	if RaceOn {
+		g := sched.cur
+		g.fr = fr
+		g.pos = instr.Pos()
+	}
 	switch instr := instr.(type) {
 	case *ssa.DebugRef:
 		// no-op
@@ -318,6 +324,11 @@ func visitInstr(fr *frame, instr ssa.Instruction) continuation {
 		fr.env[instr] = makeMap(instr.Type().Underlying().(*types.Map).Key(), 0)
 
 	case *ssa.Range:
+		if RaceOn {
+			if m, ok := fr.get(instr.X).(*omap); ok && m != nil {
+				raceRead(m)
+			}
+		}
 		fr.env[instr] = rangeIter(fr.get(instr.X), instr.X.Type())
 
 	case *ssa.Next:
@@ -387,12 +398,20 @@ func visitInstr(fr *frame, instr ssa.Instruction) continuation {
 		}
 
 	case *ssa.Lookup:
+		if RaceOn {
+			if m, ok := fr.get(instr.X).(*omap); ok && m != nil {
+				raceRead(m)
+			}
+		}
 		fr.env[instr] = lookup(instr, fr.get(instr.X), fr.get(instr.Index))
 
 	case *ssa.MapUpdate:
 		m := fr.get(instr.Map)
 		key := fr.get(instr.Key)
 		v := fr.get(instr.Value)
+		if RaceOn && m.(*omap) != nil {
+			raceWrite(m.(*omap))
+		}
 		m.(*omap).insert(key, v)
 
 	case *ssa.TypeAssert:
@@ -493,6 +512,9 @@ func callSSA(i *interpreter, caller *frame, callpos token.Pos, fn *ssa.Function,
 		i:      i,
 		caller: caller, // for panic/recover
 		fn:     fn,
+	}
+	if RaceOn {
+		fr.origin = frameOrigin(caller, fn)
 	}
 	if fn.Parent() == nil {
 		name := fn.String()
